@@ -33,6 +33,9 @@ def configs(tier, seed):
             for st in structs:
                 out.append(dict(wt=wt, entry=entry, n_steps=st[0], n_ene=st[1], n_sr=st[2], seed=seed, tier=tier, limit="full"))
             out.append(dict(wt=wt, entry=entry, n_steps=2, n_ene=1, n_sr=1, seed=seed, tier=tier, limit="onebody"))
+            if wt == "restricted" and (thorough or entry in ("ad", "ad_norot")):
+                # spatially symmetric ring: exactly degenerate one-body levels
+                out.append(dict(wt=wt, entry=entry, n_steps=1, n_ene=1, n_sr=1, seed=seed, tier=tier, limit="symmetric"))
     if thorough:
         for wt in ("restricted", "unrestricted"):
             out.append(dict(wt=wt, entry="ad_1", n_steps=1, n_ene=1, n_sr=1, seed=seed, tier=tier, limit="full"))
@@ -71,6 +74,10 @@ def job(cfg):
     n, na, nb = (3, 1, 1) if wt == "restricted" else (3, 2, 1)
     onebody = cfg["limit"] == "onebody"
     sysd = samplers.system(n, na, nb, 1, cfg["seed"], wt, scale=0.5)
+    if cfg["limit"] == "symmetric":
+        sysd = samplers.symmetric_system(4, 2.0)
+        n, na, nb = 4, 1, 1
+    nchol = len(sysd["chol"])
     if onebody:
         sysd = dict(sysd)
         sysd["chol"] = np.zeros_like(sysd["chol"])
@@ -81,7 +88,7 @@ def job(cfg):
         rho = np.array([ca[:, :na] @ ca[:, :na].T, cb[:, :nb] @ cb[:, :nb].T])
     # streams
     D = 3 if not thorough else 4
-    shape = (ns, NW, 1)
+    shape = (ns, NW, nchol)
     sched_entry = entry
     normal_draws, uniform_draws, n_draws = samplers.schedule(sched_entry, nsr, ne)
     per = int(np.prod(shape))
